@@ -113,8 +113,19 @@ func (sim) Generate(prop, tier string, seed uint64) *core.Plan {
 		if r.Intn(4) == 0 {
 			p.Cfg["recreate"] = 1
 		}
-		if r.Intn(10) == 0 {
-			p.Cfg["seedk"] = leadingZeroSeed(seed, p.Cfg["net"])
+	}
+	var lzOps []core.Op
+	if prop == "C03" && r.Intn(10) == 0 {
+		k, scopeIdx, coinLevel := leadingZeroSeed(seed, p.Cfg["net"])
+		p.Cfg["seedk"] = k
+		if k != 0 && coinLevel {
+			// the coin-type key has a leading zero byte: make sure a later
+			// account of that scope is created and used (its key derives from
+			// the coin-type key after a text round trip)
+			lzOps = []core.Op{{K: "unlock", A: []int64{0}},
+				{K: "newaccount", A: []int64{int64(scopeIdx), 0, 0}},
+				{K: "next", A: []int64{int64(scopeIdx), 1, 0, 2, 0, 0}},
+				{K: "next", A: []int64{int64(scopeIdx), 0, 1, 2, 0, 0}}}
 		}
 	}
 	// known findings to look beyond (own PRNG stream: the rest of the plan
@@ -165,7 +176,9 @@ func (sim) Generate(prop, tier string, seed uint64) *core.Plan {
 		}
 	}
 	// the wallet starts locked: most runs unlock early
-	if r.Intn(10) < 7 {
+	if len(lzOps) > 0 {
+		p.Ops = append(p.Ops, lzOps...)
+	} else if r.Intn(10) < 7 {
 		p.Ops = append(p.Ops, core.Op{K: "unlock", A: []int64{0}})
 	}
 	scopeArg := func() int64 {
@@ -270,21 +283,22 @@ func (sim) Generate(prop, tier string, seed uint64) *core.Plan {
 // leadingZeroSeed searches the candidate wallet seeds of a plan seed for one
 // whose purpose or coin-type key of a default scope has a leading zero byte
 // (the case where btcsuite's legacy hardened derivation departs from BIP32).
-func leadingZeroSeed(planSeed uint64, net int64) int64 {
+func leadingZeroSeed(planSeed uint64, net int64) (k int64, scopeIdx int, coinLevel bool) {
 	params := netFor(net)
-	scopes := []keyoracle.Scope{{Purpose: 44}, {Purpose: 49}, {Purpose: 84}, {Purpose: 86}}
+	// same order as waddrmgr.DefaultKeyScopes (the model's scope indices)
+	scopes := []keyoracle.Scope{{Purpose: 49}, {Purpose: 84}, {Purpose: 86}, {Purpose: 44}}
 	for k := int64(1); k < 600; k++ {
 		o, err := keyoracle.New(walletSeed(planSeed, k), params)
 		if err != nil {
 			continue
 		}
-		for _, s := range scopes {
+		for i, s := range scopes {
 			if pz, cz := o.LeadingZeroOnPath(s); pz || cz {
-				return k
+				return k, i, cz
 			}
 		}
 	}
-	return 0
+	return 0, 0, false
 }
 
 // ---------------------------------------------------------------- evidence
@@ -317,7 +331,7 @@ func (sim) Components() map[string][]string {
 var probesByProp = map[string][]string{
 	"C03": {"derived-while-locked-then-unlocked", "extend-while-unlocked", "extend-while-locked", "lookup-from-cache",
 		"lookup-from-disk", "lookup-right-after-restart", "schema-override-account", "schema-override-address",
-		"imported-xpub-account", "leading-zero-path", "range-end", "recreated-from-seed", "restart", "crash-restart",
+		"imported-xpub-account", "leading-zero-path", "leading-zero-coin-key-new-account", "range-end", "recreated-from-seed", "restart", "crash-restart",
 		"import-key", "import-script", "custom-scope", "new-account", "markused-then-cached-read"},
 	"C04": {"passphrase-change", "import-key", "import-script", "watch-only-conversion", "new-account",
 		"image-with-freed-pages", "imported-xpub-account", "custom-scope", "crash-restart"},
